@@ -1,5 +1,6 @@
 import ClusterVerif.Gen.C18
 import ClusterVerif.Lemmas.C18
+import ClusterVerif.Model.C18Source
 
 /-!
 # C18 — concurrent use of the API never races, panics, deadlocks or tears results
@@ -305,6 +306,46 @@ theorem acyclic_no_deadlock (rank : Mutex → Nat) (progs : List (List Act))
       rw [hxm] at hlt
       omega
 
+/-- Summaries and calling contexts are sound for the script model: let every function body pass the
+modular lockset check in every calling context recorded for it (`modOK`: accesses against the
+locks held so far, each call site's lockset must itself be a recorded context of the callee, the
+body returns with the locks it was entered with). Then the script obtained by INLINING all calls
+(to any depth at which inlining succeeds; recursion beyond the bound yields `none`, never a script)
+passes the flat check `lockOK` from each of its contexts, and is balanced. -/
+theorem inline_preserves_lockOK (L : Loc → Mutex) (P : List Body) (ctxs : Nat → List Held)
+    (hmod : ∀ f H, H ∈ ctxs f → modOK L ctxs H H (P.getD f []) = true)
+    (fuel f : Nat) (H : Held) (acts : List Act) (hH : H ∈ ctxs f) (hin : inlineFn P fuel f = some acts) :
+    lockOK L H acts = true ∧ acts.foldl after H = H := by
+  induction fuel generalizing f H acts with
+  | zero => simp [inlineFn] at hin
+  | succ n ih =>
+    simp only [inlineFn] at hin
+    exact inlineWith_ok L ctxs (inlineFn P n) (fun g H' a' hg ha => ih g H' a' hg ha) H (P.getD f []) H acts (hmod f H hH) hin
+
+/-- … so a program whose threads are root functions (entered with nothing held: `[] ∈ ctxs f`) has
+only well-locked, disciplined executions once its calls are inlined: `static_disciplined`, hence
+`lockset_drf`, apply to it. -/
+theorem inlined_program_disciplined (L : Loc → Mutex) (P : List Body) (ctxs : Nat → List Held)
+    (hmod : ∀ f H, H ∈ ctxs f → modOK L ctxs H H (P.getD f []) = true)
+    (fuel : Nat) (rootsL : List Nat) (hroot : ∀ f ∈ rootsL, [] ∈ ctxs f)
+    (progs : List (List Act)) (hprogs : ∀ p ∈ progs, ∃ f ∈ rootsL, inlineFn P fuel f = some p)
+    (sch : List Nat) (s : Sys) (evs : List Ev) (hrun : (Sys.init progs).run sch = some (s, evs)) :
+    wellLocked evs = true ∧ disciplined L evs = true := by
+  refine static_disciplined L progs (fun p hp => ?_) sch s evs hrun
+  obtain ⟨f, hf, hin⟩ := hprogs p hp
+  exact (inline_preserves_lockOK L P ctxs hmod fuel f [] p (hroot f hf) hin).1
+
+/-- non-vacuity: `Filter`-like root 0 takes mutex 1 shared and calls helper 1, which reads location 9
+(guarded by mutex 1) relying on its caller's lock; contexts: root `[]`, helper `[(1, sh)]` -/
+example :
+    let P : List Body := [[.act (.acq 1 .sh), .call 1, .act (.rel 1)], [.act (.rd 9)]]
+    let ctxs : Nat → List Held := fun f => if f = 0 then [[]] else [[(1, .sh)]]
+    modOK (fun _ => 1) ctxs [] [] (P.getD 0 []) = true ∧ modOK (fun _ => 1) ctxs [(1, .sh)] [(1, .sh)] (P.getD 1 []) = true
+      ∧ inlineFn P 2 0 = some [.acq 1 .sh, .rd 9, .rel 1] ∧ inlineFn P 1 0 = none := by decide
+
+/-- … and the helper writing instead of reading is rejected in that context (RLock held by the caller) -/
+example : modOK (fun _ => 1) (fun _ => [[(1, .sh)]]) [(1, .sh)] [(1, .sh)] [.act (.wr 9)] = false := by decide
+
 /-- a non-trivial program meeting both static checks: two threads nesting mutexes 1 → 2 -/
 example :
     let progs : List (List Act) :=
@@ -454,6 +495,28 @@ theorem acyclicB_rank (edges : List (Nat × Nat)) (h : acyclicB edges = true) :
   refine ⟨rankOf edges, fun e he => ?_⟩
   have := List.all_eq_true.mp h e he
   simpa using this
+
+/-! ## 4'. the source text of the functions the synchronisation models transcribe is the snapshot they were read from -/
+
+theorem gen_source_stateless_New : Gen.Src.stateless_New = Expected.stateless_New := rfl
+theorem gen_source_stateless_Tracker_opWorker : Gen.Src.stateless_Tracker_opWorker = Expected.stateless_Tracker_opWorker := rfl
+theorem gen_source_stateless_Tracker_enqueue : Gen.Src.stateless_Tracker_enqueue = Expected.stateless_Tracker_enqueue := rfl
+theorem gen_source_stateless_Tracker_SetClient : Gen.Src.stateless_Tracker_SetClient = Expected.stateless_Tracker_SetClient := rfl
+theorem gen_source_stateless_Tracker_Shutdown : Gen.Src.stateless_Tracker_Shutdown = Expected.stateless_Tracker_Shutdown := rfl
+theorem gen_source_crdt_New : Gen.Src.crdt_New = Expected.crdt_New := rfl
+theorem gen_source_crdt_Consensus_setup : Gen.Src.crdt_Consensus_setup = Expected.crdt_Consensus_setup := rfl
+theorem gen_source_crdt_Consensus_Shutdown : Gen.Src.crdt_Consensus_Shutdown = Expected.crdt_Consensus_Shutdown := rfl
+theorem gen_source_crdt_Consensus_SetClient : Gen.Src.crdt_Consensus_SetClient = Expected.crdt_Consensus_SetClient := rfl
+theorem gen_source_crdt_Consensus_Ready : Gen.Src.crdt_Consensus_Ready = Expected.crdt_Consensus_Ready := rfl
+theorem gen_source_crdt_Consensus_LogPin : Gen.Src.crdt_Consensus_LogPin = Expected.crdt_Consensus_LogPin := rfl
+theorem gen_source_crdt_Consensus_LogUnpin : Gen.Src.crdt_Consensus_LogUnpin = Expected.crdt_Consensus_LogUnpin := rfl
+theorem gen_source_crdt_Consensus_batchWorker : Gen.Src.crdt_Consensus_batchWorker = Expected.crdt_Consensus_batchWorker := rfl
+theorem gen_source_cluster_Cluster_run : Gen.Src.cluster_Cluster_run = Expected.cluster_Cluster_run := rfl
+theorem gen_source_cluster_Cluster_ready : Gen.Src.cluster_Cluster_ready = Expected.cluster_Cluster_ready := rfl
+theorem gen_source_cluster_Cluster_Ready : Gen.Src.cluster_Cluster_Ready = Expected.cluster_Cluster_Ready := rfl
+theorem gen_source_cluster_Cluster_Shutdown : Gen.Src.cluster_Cluster_Shutdown = Expected.cluster_Cluster_Shutdown := rfl
+theorem gen_source_cluster_Cluster_Done : Gen.Src.cluster_Cluster_Done = Expected.cluster_Cluster_Done := rfl
+theorem gen_source_cluster_Cluster_watchPeers : Gen.Src.cluster_Cluster_watchPeers = Expected.cluster_Cluster_watchPeers := rfl
 
 /-! ## 5. the Bool clauses mean what the statement says -/
 
